@@ -17,4 +17,11 @@ for abandon in (0, 1):
     pass
 HARNESSES.append(H("chunk.iter", "C13/chunktab.c", defines={"SEL_ITER": 1, "NENT": 5, "SNP_MAX": 8}, unwind=8, checks="mem",
                    bounds="table of <= 5 entries with symbolic hashes (duplicates allowed), by-id or full iteration, optionally after an abandoned by-id iteration", **_common))
+for tag, cfile, fn in (("wav", "wav.c", "wav_get_chunk_data"), ("aiff", "aiff.c", "aiff_get_chunk_data"), ("caf", "caf.c", "caf_get_chunk_data"), ("rf64", "rf64.c", "rf64_get_chunk_data")):
+    HARNESSES.append(H("chunk.getdata." + tag, "C13/chunk_data.c", link=["common", "chunk"], stubs=["psf_log_printf", "psf_memset"],
+                       defines={"CONTAINER_FILE": '"%s"' % cfile, "GET_DATA_FN": fn, "MF_CAP": 32, "MF_MAXIO": 20, "PSF_MEMSET_MAX": 64, "SNP_MAX": 8},
+                       unwind=34, unwindset=["psf_fread.0:21", "psf_memset.0:65"], checks="mem",
+                       include_env=("log_stub", "memfile", "memset_model", "snprintf_model"), timeout=300, functions=[fn],
+                       bounds="stored chunk length 0..12 (symbolic), caller datalen 0..16 (symbolic), symbolic payload bytes"))
+
 META = {"assumptions": ["snprintf contract model"], "outside": ["payload contents beyond 8 bytes", "container serialisation of the chunks (C13 H4, see DESIGN)"]}
